@@ -3,6 +3,7 @@
 package c11
 
 import (
+	"context"
 	"fmt"
 	"math/rand/v2"
 	"strings"
@@ -17,7 +18,7 @@ func init() {
 	props.Register(&props.Check{ID: "C11", Level: "exploration", Run: run, Replay: replay})
 }
 
-var ocspAlpha = []string{"good", "revoked", "unknown-status", "forged-unrelated-nocert", "err", "http-500", "timeout", "good-delegate", "expired", "revoked-inv-after"}
+var ocspAlpha = []string{"good", "revoked", "unknown-status", "forged-unrelated-nocert", "err", "http-500", "timeout", "good-delegate", "expired", "revoked-inv-after", "revoked-inv-malformed", "revoked-inv-undecodable"}
 var crlAlpha = []string{"clean", "lists", "expired", "fetch-fail", "delta-ok", "delta-lists"}
 
 func vectors(alpha []string, maxLen int) [][]string {
@@ -386,6 +387,48 @@ func run(r *core.Run) int {
 		}
 		add(sc)
 	}
+	// histories: the same validator asked twice while the servers change their
+	// behaviour in between - the second answer must be judged on its own
+	type pair struct{ a, b *sims.Scenario }
+	var pairs []pair
+	hrng := r.Rand("histories")
+	for i, n := 0, r.Pick(1500, 30000); i < n; i++ {
+		l := 2 + hrng.IntN(2)
+		mk := func() *sims.Scenario {
+			return &sims.Scenario{Len: l, CAKind: "p256", Entry: []string{"validate", "validate", "validate-deprecated"}[i%3], CRLRoute: []string{"http", "fetcher"}[i%2], WithST: i%4 < 2}
+		}
+		a, b := mk(), mk()
+		if a.Entry != "validate" {
+			a.CRLRoute, b.CRLRoute = "http", "http"
+		}
+		a.Plans, b.Plans = make([]sims.CertPlan, l), make([]sims.CertPlan, l)
+		for pos := 0; pos < l-1; pos++ {
+			nO, nC := hrng.IntN(3), hrng.IntN(3)
+			pick := func(alpha []string, n int) []string {
+				v := make([]string, n)
+				for k := range v {
+					v[k] = alpha[hrng.IntN(len(alpha))]
+				}
+				return v
+			}
+			a.Plans[pos] = plan(pick(ocspAlpha, nO), pick(crlAlpha, nC))
+			b.Plans[pos] = plan(pick(ocspAlpha, nO), pick(crlAlpha, nC))
+		}
+		pairs = append(pairs, pair{a, b})
+	}
+	r.Parallel(len(pairs), func(i int) {
+		p := pairs[i]
+		env := p.a.Prepare()
+		out := env.Run(context.Background())
+		judge(r, p.a, out)
+		env.Replan(p.b)
+		before := len(env.Net.Log())
+		out2 := env.Run(context.Background())
+		out2.Log = out2.Log[before:]
+		judge(r, p.b, out2)
+		r.Count("second-calls-on-the-same-validator", 1)
+		r.Nontrivial("history " + p.a.Desc() + " THEN " + p.b.Desc())
+	})
 	r.Parallel(len(jobs), func(i int) {
 		sc := jobs[i].sc
 		out := sc.Run()
@@ -413,7 +456,8 @@ func run(r *core.Run) int {
 		core.Require{Counter: "method-OCSP", Why: "method OCSP never seen"},
 		core.Require{Counter: "method-CRL", Why: "method CRL never seen"},
 		core.Require{Counter: "method-OCSPFallbackCRL", Why: "fallback never seen"},
-		core.Require{Counter: "method-Unknown", Why: "NonRevokable never seen"})
+		core.Require{Counter: "method-Unknown", Why: "NonRevokable never seen"},
+		core.Require{Counter: "second-calls-on-the-same-validator", Why: "no two-call history"})
 }
 
 func replay(r *core.Run, path string) int {
